@@ -62,7 +62,7 @@ def _get(atom, name, default=0):
 
 def fields_of(kind: str, a, data: bytes | None) -> dict:
     f = {}
-    if kind != "ftyp" and kind != "opaque":
+    if kind not in ("ftyp", "opaque", "dec3"):
         f["version"], f["flags"] = a.version, a.flags
     fl = f.get("flags", 0)
     if kind == "mfhd":
@@ -123,6 +123,12 @@ def fields_of(kind: str, a, data: bytes | None) -> dict:
                  timescale=a.timescale, presentation_time_delta=_get(a, "presentation_time_delta"),
                  presentation_time=_get(a, "presentation_time"), event_duration=a.event_duration,
                  event_id=a.event_id, data=_b(a.data))
+    elif kind == "dec3":
+        f["data_rate"] = a.data_rate
+        f["substreams"] = [(s.fscod, s.bsid, s.bsmod, s.acmod, int(s.lfeon), s.num_dep_sub,
+                            _get(s, "chan_loc") if s.num_dep_sub else 0) for s in a.substreams]
+        f["ext"] = (int(a.flag_ec3_extension_type_a), a.complexity_index_type_a) \
+            if "flag_ec3_extension_type_a" in a._fields else None
     elif kind == "opaque":
         if data is None:
             f["data"] = _b(_get(a, "data", None))
